@@ -33,6 +33,7 @@ func toMultihash(ctx context.Context, services coreiface.CoreAPI, log *IPFSLog) 
 		return cid.Undef, errmsg.ErrEmptyLogSerialization
 	}
 
+	verifPoint("publish.beforeWrite", log)
 	return log.io.Write(ctx, services, log.ToJSONLog(), nil)
 }
 
